@@ -66,7 +66,7 @@ func exec(param any) error {
 	// C03: high-priority requests issued by one goroutine are carried out in issue order
 	if is, ok := st.hpIssue[v]; ok {
 		if last, seen := st.hpLast[is[0]]; seen && last[0] > is[1] {
-			util.Fail(fmt.Sprintf("C03: high-priority requests of producer %d ran out of issue order: task %d (issued as its #%d) ran after task %d (its #%d)", is[0], v, is[1], last[1], last[0]))
+			util.Fail(fmt.Sprintf("C02/C03: high-priority requests of producer %d ran out of issue order: task %d (issued as its #%d) ran after task %d (its #%d)", is[0], v, is[1], last[1], last[0]))
 		} else {
 			st.hpLast[is[0]] = [2]int{is[1], v}
 		}
